@@ -15,9 +15,9 @@ import (
 var known = ev.Matcher[Case]{}
 
 const rule = "populated SQLite databases: schemas from the harness model where every table carries a never-edited key column k; 0-6 rows per table with type-appropriate values " +
-	"(NULLs where allowed, distinct values under keys/unique indexes, values satisfying the generated checks, FK columns NULL); desired = 1-4 random elementary edits " +
+	"(NULLs where allowed, distinct values under keys/unique indexes, values satisfying the generated checks; foreign-key columns NULL or pointing at an existing parent row); desired = 1-4 random elementary edits " +
 	"(add/drop/modify column incl. null->not-null with default, type change, defaults, generated columns, indexes, keys, FKs, checks, WITHOUT ROWID/STRICT toggles, add/drop table). " +
-	"The CLI's diff/apply path runs on a real engine inside a transaction. Oracle (independent connection): same key set per surviving table; every column present before and after with the same declared type " +
+	"The CLI's diff/apply path runs on a real engine inside a transaction (2/3) or through Driver.ApplyChanges without one, foreign keys enforced (1/3). Oracle (independent connection): same key set per surviving table; every column present before and after with the same declared type " +
 	"keeps quote(value) per row, except NULL -> new DEFAULT under a column that became NOT NULL; tables outside the change set keep sqlite_master.sql and rows including rowid. " +
 	"Data-caused engine failures are counted as rejected. non-trivial = >=1 row in a modified table and the plan has a rebuild or ALTER; distinct key = (path, change kinds, edit kinds)"
 
@@ -109,6 +109,7 @@ func genCase(t *rapid.T) Case {
 	o := model.Opts{NoInlineUnique: true, WordNames: true, KeyColumn: true, SimpleDefaults: false}
 	c := Case{A: model.GenSchema(t, 3, o), Rows: map[string][]Row{}}
 	dataFriendly(&c.A)
+	addParentLink(t, &c.A)
 	protect := map[string]bool{"k": true}
 	for _, tb := range c.A.Tables {
 		fkCols := map[string]bool{}
@@ -155,6 +156,8 @@ func genCase(t *rapid.T) Case {
 			c.Rows[tb.Name] = append(c.Rows[tb.Name], r)
 		}
 	}
+	linkRows(t, &c)
+	c.NoTx = rapid.IntRange(0, 2).Draw(t, "notx") == 0
 	c.B = c.A.Clone()
 	for n := rapid.IntRange(1, 4).Draw(t, "nedits"); n > 0; n-- {
 		if k := model.Edit(t, &c.B, o, protect); k != "" {
@@ -163,6 +166,79 @@ func genCase(t *rapid.T) Case {
 	}
 	dataFriendly(&c.B)
 	return c
+}
+
+// addParentLink gives (every second schema) one table a nullable column `pref` that references the single-column primary
+// key of some table (possibly itself), with an ON DELETE action that would show in the child rows if parent rows were deleted.
+func addParentLink(t *rapid.T, s *model.Schema) {
+	if rapid.Bool().Draw(t, "parentlink") {
+		return
+	}
+	ci := rapid.IntRange(0, len(s.Tables)-1).Draw(t, "linkchild")
+	pi := rapid.IntRange(0, len(s.Tables)-1).Draw(t, "linkparent")
+	child, parent := &s.Tables[ci], &s.Tables[pi]
+	if len(parent.PK) != 1 || child.Col("pref") != nil {
+		return
+	}
+	pk := parent.Col(parent.PK[0])
+	if pk == nil || pk.Gen != "" {
+		return
+	}
+	if child.Strict && !map[string]bool{"integer": true, "int": true, "real": true, "text": true, "blob": true, "any": true}[strings.ToLower(pk.Type)] {
+		return // STRICT tables know five type names only
+	}
+	child.Cols = append(child.Cols, model.Column{Name: "pref", Type: pk.Type})
+	child.FKs = append(child.FKs, model.FK{
+		Name: "fk_" + child.Name + "_pref", Cols: []string{"pref"}, RefTable: parent.Name, RefCols: []string{pk.Name},
+		OnDelete: rapid.SampledFrom([]string{"CASCADE", "CASCADE", "SET NULL", "SET DEFAULT", ""}).Draw(t, "linkdel"),
+		OnUpdate: rapid.SampledFrom([]string{"CASCADE", "SET NULL", ""}).Draw(t, "linkupd"),
+	})
+}
+
+// linkRows points foreign-key columns of child rows at existing parent rows (2 of 3 rows per key), so that a parent row
+// that is deleted or rewritten by the migration shows in the children through the key's ON DELETE / ON UPDATE action.
+func linkRows(t *rapid.T, c *Case) {
+	for _, tb := range c.A.Tables {
+		for _, fk := range tb.FKs {
+			parent := c.A.Table(fk.RefTable)
+			if parent == nil {
+				continue
+			}
+			sameTypes := true
+			for i, cn := range fk.Cols {
+				pc := parent.Col(fk.RefCols[i])
+				// a STRICT child only stores values of its own type; elsewhere SQLite compares with the parent's affinity
+				if cc := tb.Col(cn); pc == nil || cc == nil || tb.Strict && !strings.EqualFold(pc.Type, cc.Type) {
+					sameTypes = false
+				}
+			}
+			if !sameTypes {
+				continue
+			}
+			for ri, r := range c.Rows[tb.Name] {
+				cands := c.Rows[fk.RefTable]
+				if fk.RefTable == tb.Name {
+					cands = cands[:ri] // a self reference points at an earlier row
+				}
+				if len(cands) == 0 || rapid.IntRange(0, 2).Draw(t, "link") == 0 {
+					continue
+				}
+				pr := cands[rapid.IntRange(0, len(cands)-1).Draw(t, "parent")]
+				ok := true
+				for _, rc := range fk.RefCols {
+					if v, has := pr[rc]; !has || v == "NULL" {
+						ok = false
+					}
+				}
+				if !ok {
+					continue
+				}
+				for i, cn := range fk.Cols {
+					r[cn] = pr[fk.RefCols[i]]
+				}
+			}
+		}
+	}
 }
 
 func mkCheck(col *ev.Collector) func(Case) error {
@@ -179,12 +255,33 @@ func mkCheck(col *ev.Collector) func(Case) error {
 		if out.RowsIn > 0 {
 			col.Class("rows-in-modified-table")
 		}
+		if c.NoTx {
+			col.Class("apply/no-transaction")
+		} else {
+			col.Class("apply/transaction")
+		}
+		if linked(c) {
+			col.Class("child-rows-reference-parent-rows")
+		}
 		if out.RowsIn > 0 && out.Path != "none" {
 			col.NonTrivial(fmt.Sprintf("%s|%s|%s", out.Path, strings.Join(out.Kinds, ","), strings.Join(c.Edits, ",")))
 		}
 		col.Sample("path/"+out.Path, c)
 		return err
 	}
+}
+
+func linked(c Case) bool {
+	for _, tb := range c.A.Tables {
+		for _, fk := range tb.FKs {
+			for _, r := range c.Rows[tb.Name] {
+				if v, ok := r[fk.Cols[0]]; ok && v != "NULL" {
+					return true
+				}
+			}
+		}
+	}
+	return false
 }
 
 func TestCheck(t *testing.T) {
